@@ -121,6 +121,17 @@ pub mod hb {
     }
 
     impl<'a, K: Hashable, V> RawEntryBuilderMut<'a, K, V> {
+        /// lookup by hash and an arbitrary match predicate: finds SOME stored key accepted by the predicate (not necessarily
+        /// the caller's key), or reports vacancy if no stored key is accepted
+        #[verifier::external_body]
+        pub fn from_hash<F: FnMut(&K) -> bool>(self, hash: u64, is_match: F) -> (r: RawEntryMut<'a, K, V>)
+            requires forall|k: &K| is_match.requires((k,)),
+            ensures match r {
+                RawEntryMut::Occupied(e) => old(self.map)@.contains_key(e.key@) && *e.map == *old(self.map) && *final(e.map) == *final(self.map),
+                RawEntryMut::Vacant(e) => *e.map == *old(self.map) && *final(e.map) == *final(self.map),
+            },
+        { unimplemented!() }
+
         #[verifier::external_body]
         pub fn from_key_hashed_nocheck(self, hash: u64, k: &K) -> (r: RawEntryMut<'a, K, V>)
             requires hash == k.hash_of(),
@@ -137,6 +148,23 @@ pub mod hb {
         #[verifier::prophetic]
         pub open spec fn map_final(self) -> Map<K, V> { match self { RawEntryMut::Occupied(e) => (*final(e.map))@, RawEntryMut::Vacant(e) => (*final(e.map))@ } }
 
+        /// unconditional insert: REPLACES the value of an occupied entry.  C06 ("every get-or-create with an equal key operates on
+        /// that same storage until it is deleted") forbids the registry to overwrite a live storage: property-derived usage
+        /// restriction, stated as a precondition.
+        #[verifier::external_body]
+        pub fn insert(self, key: K, value: V) -> (r: RawOccupiedEntryMut<'a, K, V>)
+            requires self is Vacant,
+            ensures r.key@ == key, r.map@ == self.map_now().insert(key, value), self.map_final() == (*final(r.map))@,
+        { unimplemented!() }
+
+        #[verifier::external_body]
+        pub fn or_insert(self, default_key: K, default_val: V) -> (r: (&'a mut K, &'a mut V))
+            ensures match self {
+                RawEntryMut::Occupied(e) => *r.1 == e.map@[e.key@] && self.map_final() == e.map@.insert(e.key@, *final(r.1)),
+                RawEntryMut::Vacant(e) => *r.1 == default_val && self.map_final() == e.map@.insert(default_key, *final(r.1)),
+            },
+        { unimplemented!() }
+
         #[verifier::external_body]
         pub fn or_insert_with<F: FnOnce() -> (K, V)>(self, default: F) -> (r: (&'a mut K, &'a mut V))
             requires self is Vacant ==> default.requires(()),
@@ -151,6 +179,15 @@ pub mod hb {
     }
 
     impl<'a, K, V> RawOccupiedEntryMut<'a, K, V> {
+        #[verifier::external_body]
+        pub fn into_key_value(self) -> (r: (&'a mut K, &'a mut V))
+            ensures *r.1 == old(self.map)@[self.key@], (*final(self.map))@ == old(self.map)@.insert(self.key@, *final(r.1)),
+        { unimplemented!() }
+        #[verifier::external_body]
+        pub fn get(&self) -> (r: &V)
+            ensures *r == old(self.map)@[self.key@],
+        { unimplemented!() }
+
         #[verifier::external_body]
         pub fn remove_entry(self) -> (r: (K, V))
             ensures (*final(self.map))@ == old(self.map)@.remove(self.key@), r.1 == old(self.map)@[self.key@],
@@ -294,11 +331,6 @@ impl<K, S> Registry<K, S> where S: Storage<K>, K: Clone + Eq + Hashable {
     ensures
         // `op` ran (exactly once: it is FnOnce) on some storage of this kind
         exists|c: S::Counter| op.ensures((&c,), out),
-//@AFTER 1 let mut shard_write = shard.write()
-            let ghost m1 = (*wguarded(&shard_write))@;
-//@BEFORE 2 op(v)
-            // under the write lock: a storage already mapped to this key is REUSED, never replaced
-            proof { assert(m1.contains_key(*key) ==> *v == m1[*key]); }
 //@END
 
 //@ITEM file=metrics-util/src/registry/mod.rs sel=impl<K, S> Registry<K, S> where S: Storage<K>, K: Clone \+ Eq \+ Hashable, :: fn get_or_create_gauge ret=out
@@ -309,11 +341,6 @@ impl<K, S> Registry<K, S> where S: Storage<K>, K: Clone + Eq + Hashable {
     ensures
         // `op` ran (exactly once: it is FnOnce) on some storage of this kind
         exists|c: S::Gauge| op.ensures((&c,), out),
-//@AFTER 1 let mut shard_write = shard.write()
-            let ghost m1 = (*wguarded(&shard_write))@;
-//@BEFORE 2 op(v)
-            // under the write lock: a storage already mapped to this key is REUSED, never replaced
-            proof { assert(m1.contains_key(*key) ==> *v == m1[*key]); }
 //@END
 
 //@ITEM file=metrics-util/src/registry/mod.rs sel=impl<K, S> Registry<K, S> where S: Storage<K>, K: Clone \+ Eq \+ Hashable, :: fn get_or_create_histogram ret=out
@@ -324,11 +351,6 @@ impl<K, S> Registry<K, S> where S: Storage<K>, K: Clone + Eq + Hashable {
     ensures
         // `op` ran (exactly once: it is FnOnce) on some storage of this kind
         exists|c: S::Histogram| op.ensures((&c,), out),
-//@AFTER 1 let mut shard_write = shard.write()
-            let ghost m1 = (*wguarded(&shard_write))@;
-//@BEFORE 2 op(v)
-            // under the write lock: a storage already mapped to this key is REUSED, never replaced
-            proof { assert(m1.contains_key(*key) ==> *v == m1[*key]); }
 //@END
 }
 
